@@ -26,7 +26,7 @@ func main() {
 		isish.ChildMain(runCase)
 	}
 	vf.Main("C31", "exploration", func(r *vf.Run) {
-		r.Rule("PRNG histories of 10-25 events for 1 or 2 neighbors (on two interfaces, or both on one): valid point-to-point hellos with holding time 1..30 s and a three-way TLV that is absent / state Down without neighbor / state Init, Up or Down naming this system and circuit / naming another system / naming this system with a wrong circuit id / one octet long (state only), interleaved with mock clock advances of 1..35 s taken in 1 s steps, optionally followed by silence of holding time + 3 s or + 126 s. Monitors after every hello and every 1 s step: (up-without-listing) Up only if a hello since the last non-Up state listed this system and circuit; (down-on-not-listed) a hello carrying a three-way TLV that does not list us, received while Up, leaves the adjacency not Up; (hold-expiry) no hello for the largest announced holding time + 2 s => not Up; (disappear) no hello for holding time + 125 s => absent from GetAdjacencies, whatever state it was in; (lsp-up-set) whenever the local LSP's sequence number increased, its extended IS reachability TLV lists exactly the Up adjacencies (for a regeneration that raced with timers: a set between the Up sets before and after the step). distinct_nontrivial = histories in which an adjacency reached Up and left it again")
+		r.Rule("PRNG histories of 10-25 events for 1 or 2 neighbors (on two interfaces, or both on one): valid point-to-point hellos with holding time 1..30 s and a three-way TLV that is absent / state Down without neighbor / state Init, Up or Down naming this system and circuit / naming another system / naming this system with a wrong circuit id / one octet long (state only), interleaved with mock clock advances of 1..35 s taken in 1 s steps, optionally followed by silence of holding time + 3 s or + 126 s. Monitors after every hello and every 1 s step: (up-without-listing) Up only if a hello since the last non-Up state listed this system and circuit; (down-on-not-listed) a hello carrying a three-way TLV that does not list us, received while Up, leaves the adjacency not Up; (hold-expiry) no hello for the holding time of the last hello + 2 s => not Up, also when that hello lowered the holding time; (disappear) no hello for the last hello's holding time + 125 s => absent from GetAdjacencies, whatever state it was in; (lsp-up-set) whenever the local LSP's sequence number increased, its extended IS reachability TLV lists exactly the Up adjacencies (for a regeneration that raced with timers: a set between the Up sets before and after the step). distinct_nontrivial = histories in which an adjacency reached Up and left it again")
 		r.Assume("after every hello and every 1 s clock step the harness yields until no adjacency-check tick or LSP refresh request is pending and adjacency table + local LSP sequence number are unchanged over three reads (real-time cap 20 s => inconclusive)",
 			"hellos without three-way TLV are rejected by bio-rd; the oracles make no demand on them")
 		opts := isish.Opts{Workers: 12, Scratch: filepath.Join(os.TempDir(), "isis")}
@@ -52,5 +52,6 @@ func main() {
 		r.Require("disappear_checks", 50)
 		r.Require("lsp_regenerations_checked", 500)
 		r.Require("not_listed_while_up", 50)
+		r.Require("hellos_lowering_hold", 500)
 	})
 }
